@@ -1899,6 +1899,16 @@ func (k *Kernel) handleReplayedHeader(
 		}
 	}
 
+	// Above the initial height, the replayed header must extend the header we are committing.
+	if header.Height > k.initialHeight && !bytes.Equal(header.PrevBlockHash, s.CommittingHeader.Hash) {
+		return tmelink.ReplayedHeaderValidationError{
+			Err: fmt.Errorf(
+				"previous block hash on replayed header (%x) differs from committing header's hash (%x)",
+				header.PrevBlockHash, s.CommittingHeader.Hash,
+			),
+		}
+	}
+
 	if proof.Round < s.Voting.Round {
 		// There are some edge cases we haven't handled yet with going backwards.
 		// It is a valid case when we saw >2/3 total precommits
